@@ -19,7 +19,9 @@ type Ident struct {
 	Origin, Base, ID string
 }
 
-func (i Ident) String() string { return fmt.Sprintf("%s:%s/%s", short(i.Origin), shortClass(i.Base), shortClass(i.ID)) }
+func (i Ident) String() string {
+	return fmt.Sprintf("%s:%s/%s", short(i.Origin), shortClass(i.Base), shortClass(i.ID))
+}
 
 // Full is an unabbreviated key (chain names never contain '#').
 func (i Ident) Full() string { return i.Origin + ":" + i.Base + ":" + i.ID }
@@ -106,8 +108,12 @@ func diffTokens(a, b TokenSnap) tokenDelta {
 			d.NFTAdded = append(d.NFTAdded, n)
 		}
 	}
-	sort.Slice(d.NFTRemoved, func(i, j int) bool { return d.NFTRemoved[i].Class+d.NFTRemoved[i].ID < d.NFTRemoved[j].Class+d.NFTRemoved[j].ID })
-	sort.Slice(d.NFTAdded, func(i, j int) bool { return d.NFTAdded[i].Class+d.NFTAdded[i].ID < d.NFTAdded[j].Class+d.NFTAdded[j].ID })
+	sort.Slice(d.NFTRemoved, func(i, j int) bool {
+		return d.NFTRemoved[i].Class+d.NFTRemoved[i].ID < d.NFTRemoved[j].Class+d.NFTRemoved[j].ID
+	})
+	sort.Slice(d.NFTAdded, func(i, j int) bool {
+		return d.NFTAdded[i].Class+d.NFTAdded[i].ID < d.NFTAdded[j].Class+d.NFTAdded[j].ID
+	})
 	acc := func(m map[string]*big.Int, k string, v uint64, sign int64) {
 		if m[k] == nil {
 			m[k] = new(big.Int)
@@ -145,17 +151,17 @@ func diffTokens(a, b TokenSnap) tokenDelta {
 
 // TokenState is the harness's ledger of native assets and transfer packets.
 type TokenState struct {
-	Prop      string
-	NFTLive   map[Ident]bool     // natively minted, not burned by a holder
-	MTMinted  map[Ident]*big.Int // native mint total
-	MTBurned  map[Ident]*big.Int
-	Flights   map[string]*TokenFlight // packet key -> flight
+	Prop     string
+	NFTLive  map[Ident]bool     // natively minted, not burned by a holder
+	MTMinted map[Ident]*big.Int // native mint total
+	MTBurned map[Ident]*big.Int
+	Flights  map[string]*TokenFlight // packet key -> flight
 	// VoucherBurned: units of vouchers burned by their holders through the mt module, per backing
 	// escrow node (they stay locked upstream for good).
 	VoucherBurned map[string]*big.Int
-	Tainted   bool                    // a hostile packet or an excluded shape appeared; global sums are no longer asserted
-	CheckSums bool
-	CheckStep bool
+	Tainted       bool // a hostile packet or an excluded shape appeared; global sums are no longer asserted
+	CheckSums     bool
+	CheckStep     bool
 	// NoteC06 makes refund-exactness violations be reported under C06.
 }
 
@@ -233,6 +239,9 @@ func CheckTokens(ts *TokenState) func(*Sim, *Step) *Violation {
 func (ts *TokenState) onUser(s *Sim, st *Step, c *world.Chain, delta tokenDelta) *Violation {
 	switch st.Note {
 	case "nftmint":
+		if strings.HasPrefix(st.Class, "tibc-") {
+			return ts.viol("voucher-minted-by-user", "a user transaction created a token in a voucher class (vouchers may only come into existence against a delivered packet): "+st.Describe())
+		}
 		if contains(s.NFTClasses[c.Name], st.Class) {
 			ts.NFTLive[Ident{c.Name, st.Class, st.ID}] = true
 		}
@@ -242,6 +251,9 @@ func (ts *TokenState) onUser(s *Sim, st *Step, c *world.Chain, delta tokenDelta)
 			s.Label("holder-burned-nft")
 		}
 	case "mtmint":
+		if strings.HasPrefix(st.Class, "tibc-") {
+			return ts.viol("voucher-minted-by-user", "a user transaction created units in a voucher class (voucher units may only come into existence against a delivered packet): "+st.Describe())
+		}
 		id := Ident{c.Name, st.Class, st.ID}
 		if ts.MTMinted[id] == nil {
 			ts.MTMinted[id] = new(big.Int)
@@ -777,7 +789,7 @@ func CheckErrorAckFootprint(prop string) func(*Sim, *Step) *Violation {
 		allowed := map[string]bool{
 			string(host.PacketReceiptKey(p.SourceChain, p.DestinationChain, p.Sequence)):         false,
 			string(host.PacketAcknowledgementKey(p.SourceChain, p.DestinationChain, p.Sequence)): false,
-			string(host.MaxAckSeqKey(p.SourceChain, p.DestinationChain)):                          true,
+			string(host.MaxAckSeqKey(p.SourceChain, p.DestinationChain)):                         true,
 		}
 		for _, kd := range DiffStore(c, "tibc", st.HBefore, st.HBefore+1) {
 			seen, ok := allowed[kd.Key]
